@@ -1,5 +1,6 @@
 """C07 - parsing is the RFC 3986 decomposition of the input (decided part: delimiter table, strip sets, flow)."""
-from ..rules import parser
+from ..rules import flow, parser
+from ..rules.kindrules import make_kinds
 
 META = {}
 
@@ -17,3 +18,4 @@ def run(ctx):
     parser.split_url_table(ctx)
     parser.split_netloc_table(ctx)
     parser.pre_encoded_identity(ctx)
+    flow.f2(ctx, make_kinds(ctx.model))     # str() re-composes the authority from the raw accessors (bracketed host, raw userinfo)
